@@ -69,6 +69,10 @@ def strategy_(draw, thorough):
         if k in ("pandas", "PANDAS_ATTRS"):
             continue
         kv[k] = _val(draw)
+    if draw(st.integers(0, 5)) == 0:
+        # many keys: the key/value list of the footer crosses the short/long list-header boundary (15 entries with 'pandas')
+        for i in range(draw(st.sampled_from([11, 12, 13, 13, 14, 14, 15, 16]))):
+            kv["m%02d" % i] = {"s": "v%d" % i}
     model = dict(kv)
     updates = []
     for _ in range(draw(st.integers(1, 5))):
